@@ -5,3 +5,9 @@ Definition c04_tx_ser := tx_ser.
 Definition c04_tx_ser_nowit := tx_ser_nowit.
 Definition c04_txid := txid.
 Definition c04_txin_default := fun o s => txin o s default_sequence.   (* txin(o, s) with the default argument *)
+
+(* the ids and raw bytes of every transaction of a block, as blockchain.block_deser reports them *)
+Require Bits.Model.Block.
+Definition c04_block_ids (sha256 : bytes -> bytes) (b : bytes) : result (list (bytes * bytes * bytes)) :=
+  rmap (fun hp => List.map (fun p => (p_txid p, p_wtxid p, p_raw p)) (snd hp))
+       (Bits.Model.Block.block_deser tx_parsed (tx_deser sha256) b).
